@@ -237,6 +237,13 @@ class State:
             else:
                 raise Unsupported('undeclared field %s' % fname)
         k = self.fields[fname]
+        if isinstance(k, List) and k.ek in (Str, Bytes) and isinstance(value, (VCList, VTuple)):
+            # a list display of strings stored in a field: its flatten view is the concatenation of the items
+            from . import lib as _lib
+            items = value.items
+            value = core.clist_to_sym(VCList(items), k.ek)
+            cat = z3.StringVal('') if not items else (items[0].t if len(items) == 1 else z3.Concat(*[x.t for x in items]))
+            self.assume(_lib.flat(value) == cat)
         if isinstance(k, Dyn) and not isinstance(value, VDyn):
             comps = [z3.BoolVal(True)] + k.k.unwrap(value)
         else:
